@@ -118,7 +118,21 @@ def pair_per_live_record(ctx: Any, R: str) -> List[Ob]:
         oc, und = fd.run_paths(ctx.prog, f.module, cfg, atoms, eff_a, start=head, stop=lambda n: n is head, loop_bound=1, for_iter=lambda n, e: True)
         seqs = {tuple(sorted(x for x in strip_ret(t) if x in ('PAIR', 'ADD'))) for t in oc}
         obs.append(ob(R, f, f'new live {nm} record', 'it is reported to the listeners and queued for the cache', seqs == {('ADD', 'PAIR')}, f'effects on the feasible paths: {sorted(seqs)}'))
+    if R.split('.')[0] not in ('C05', 'C06'):
+        obs.extend(sighting_obligations(ctx, R))
     return obs
+
+
+def sighting_obligations(ctx: Any, R: str) -> List[Ob]:
+    """A record seen again is on record as seen -- its cached copy carries the new arrival time -- before any listener runs: the
+    responder reads `seen on the wire less than a second / a quarter of its TTL ago` from that copy, and a listener that raises
+    must not make the host forget the sighting."""
+    out = []
+    for o in refresh_obligations(ctx, R):
+        if o.statement.startswith(('a refresh gives', 'the refresh of an already cached', 'a record that is already cached is refreshed', 'the pointer-TTL floor is applied to the received record inside')):
+            o.statement += ' -- the sighting of a record is read from its cached copy'
+            out.append(o)
+    return out
 
 
 def previous_obligations(ctx: Any, R: str) -> List[Ob]:
@@ -412,9 +426,21 @@ def refresh_obligations(ctx: Any, R: str) -> List[Ob]:
     # --- refresh of an existing entry takes the received record's *current* lifetime (after the floor)
     entry_vars = [st.targets[0].id for st in ast.walk(loop) if isinstance(st, ast.Assign) and isinstance(st.targets[0], ast.Name) and isinstance(st.value, ast.Call) and call_name(st.value) == 'async_get_unique']
     refresh = [c for c in ast.walk(loop) if isinstance(c, ast.Call) and call_name(c) in ('reset_ttl', 'set_created_ttl') and isinstance(c.func, ast.Attribute) and norm(c.func.value) in entry_vars]
-    if not refresh:
-        raise AnalysisError('anchor vanished: refresh of the cached entry in the record loop')
     cfg0 = cfg_of(f.node)
+    if not refresh:
+        # the refresh was taken out of the record loop: listeners must still find `refreshed TTLs already visible`, and the sighting
+        # must be on record before any listener runs (a listener that raises must not lose it) -- so a deferred refresh is in
+        # order only when no path leads from the notification to it
+        late_calls = [c for c in walk_local_ordered(f.node) if isinstance(c, ast.Call) and call_name(c) in ('reset_ttl', 'set_created_ttl') and isinstance(c.func, ast.Attribute) and norm(c.func.value) != recvar and not any(c is x for x in ast.walk(loop))]
+        if not late_calls:
+            return [ob(R, f, loop, 'a record that is already cached is refreshed with the lifetime of the copy just received', False, 'no refresh of the cached entry (reset_ttl / set_created_ttl) is left in the ingestion routine')]
+        out_l: List[Ob] = []
+        notify_nodes = [n for n in cfg0.nodes if any(any(c is x for x in an['notify']) for c in n.calls())]
+        for c in late_calls:
+            rn = next(n for n in cfg0.nodes if any(x is c for x in n.calls()))
+            after = [n for n in notify_nodes if cfg0.can_reach(n, rn)]
+            out_l.append(ob(R, f, c, 'the refresh of an already cached record is applied before the listeners are notified (refreshed TTLs are visible to them, and the sighting is on record whatever a listener does)', not after and bool(notify_nodes), f'the refresh at line {c.lineno} runs after the notification at line {after[0].line}' if after else ''))
+        return out_l
     fnode = next(n for n in cfg0.nodes if any(c is fc for c in n.calls()))
     for rc_ in refresh:
         if call_name(rc_) == 'reset_ttl':
